@@ -215,3 +215,9 @@ def _mk_bg(with_size):
 
 
 CONTRACTS += [_mk_bg(True), _mk_bg(False)]
+
+
+# --- the genome-wide array is ONE run-length array over the concatenated chromosomes: its coordinates are GlobalOffset's offsets (contract proved
+# for C10, instantiated here): offset(c) + local position, exact integers for genomes of any total size.
+from contracts.c10 import mk_from_local       # noqa: E402
+CONTRACTS.append(mk_from_local("C09"))
